@@ -255,7 +255,8 @@ PROPS.update({
                 "1..=6 and long inputs for k 15, 30, 31; minimiser iterator on every string over {A,C,G,T,N} up to "
                 "length 6 (7) x all pairs m<=w<=4 and long inputs; oligo vector (bit-exact floats) and header; CGR "
                 "values and ValueError on every bad-byte string; unicode strings over {A,c,N,e-acute,Omega,G-clef} up "
-                "to length 4; batch calls of every size 0..=64, 1000, 4096 under 4 pool sizes; iterators drained "
+                "to length 4 and every code point of the Basic Multilingual Plane (plus a stride through the astral "
+                "planes) alone and inside a clean context; batch calls of every size 0..=64, 1000, 4096 under 4 pool sizes; iterators drained "
                 "after their source string was released and the heap churned. Oracle: what the core crates compute "
                 "on the same bytes (expectation file from ktmc). Non-trivial = non-empty expected result.",
         "assumptions": HIST_ASSUME + ["rayon's schedule inside the extension's batch calls is not controlled (closure is pure; ordered collect trusted)"],
